@@ -508,7 +508,99 @@ fn names() -> Vec<String> {
     v.push("ǆ".into());
     v.push("ǅ".into());
     v.push(format!("{}é", "z".repeat(254 - 1)));
+    // 16.. : ASCII names the long-name writer could be tempted to "normalise" (trailing dot / space), punctuation
+    v.push("notes.".into());
+    v.push("draft copy ".into());
+    v.push("x{y};[z]=+,.t~1".into());
+    // 19, 20: longer than any legal name (every build has to refuse them the same way)
+    v.push("q".repeat(256));
+    v.push("q".repeat(261));
     v
+}
+
+/// names for the match-relation matrix: every name of `names()` plus ASCII punctuation partners that a sloppy ASCII
+/// fold identifies (`{`/`[`, backquote/`@`, `~`/`^`), digits, and non-ASCII characters with and without case partners,
+/// with multi-character upper-case expansions, and from the Latin-1 hole (÷ ×)
+fn matrix_names() -> Vec<String> {
+    let mut v: Vec<String> = names().into_iter().filter(|n| n.encode_utf16().count() <= 255).collect();
+    for s in [
+        "x{y", "x[y", "a`b", "a@b", "t~1", "t^1", "0129.7z", "A", "b.TXT", "B.txt", "š", "Š", "s", "÷", "×", "я", "Я", "ſ", "S", "ß", "SS", "ss", "ﬁle", "file", "FILE", "ı",
+        "I", "i", "İ", "ά", "Ά", "ǰ", "J̌", "ÿ", "Ÿ", "µ", "Μ", "é.é", "É.É", "ẞ",
+    ] {
+        v.push(s.to_string());
+    }
+    v
+}
+
+fn c19m(args: &[String]) {
+    let img: Rc<Vec<u8>> = Rc::new(std::fs::read(&args[0]).expect("image"));
+    let names = matrix_names();
+    let unicode = cfg!(feature = "has_unicode");
+    let fold = |s: &str| -> String {
+        if unicode {
+            s.chars().flat_map(char::to_uppercase).collect()
+        } else {
+            s.chars().map(|c| c.to_ascii_uppercase()).collect()
+        }
+    };
+    let mut queries: Vec<String> = Vec::new();
+    for n in &names {
+        for q in [n.clone(), n.to_uppercase(), n.to_lowercase()] {
+            if !queries.contains(&q) {
+                queries.push(q);
+            }
+        }
+    }
+    std::panic::set_hook(Box::new(|_| {}));
+    let mut pairs = 0u64;
+    let mut matches = 0u64;
+    let mut viols: BTreeMap<String, (String, u64)> = BTreeMap::new();
+    for stored in &names {
+        let overlay = Rc::new(RefCell::new(BTreeMap::new()));
+        let r = catch_unwind(AssertUnwindSafe(|| -> Result<Vec<(String, bool)>, String> {
+            let fs: FileSystem<CowDisk> = FileSystem::new(CowDisk { base: img.clone(), overlay: overlay.clone(), pos: 0 }, FsOptions::new()).map_err(|e| format!("mount: {e:?}"))?;
+            let root = fs.root_dir();
+            root.create_file(stored).map_err(|e| format!("create: {e:?}"))?;
+            let alias: String = root.iter().filter_map(Result::ok).map(|e| String::from_utf8_lossy(e.short_file_name_as_bytes()).into_owned()).next().unwrap_or_default();
+            let mut out = Vec::new();
+            for q in &queries {
+                if q.encode_utf16().count() > 255 {
+                    continue;
+                }
+                let found = root.open_file(q).is_ok();
+                // the query may also name the entry by its generated 8.3 alias
+                let expect = fold(stored) == fold(q) || q.to_ascii_uppercase() == alias.to_ascii_uppercase();
+                if found != expect {
+                    out.push((q.clone(), found));
+                }
+                out.push((String::new(), found));
+            }
+            Ok(out)
+        }));
+        match r {
+            Err(_) => {
+                viols.entry("C19/match-relation/panic".into()).or_insert((format!("stored {stored:?}"), 0)).1 += 1;
+            }
+            Ok(Err(e)) => {
+                viols.entry("C19/match-relation/setup-failed".into()).or_insert((format!("stored {stored:?}: {e}"), 0)).1 += 1;
+            }
+            Ok(Ok(out)) => {
+                for (q, found) in out {
+                    if q.is_empty() {
+                        pairs += 1;
+                        matches += found as u64;
+                    } else {
+                        let sig = if found { "C19/match-relation/matched-a-different-name" } else { "C19/match-relation/missed-an-equal-name" };
+                        viols.entry(sig.into()).or_insert((format!("stored {stored:?}, looked up {q:?} (unicode folding {})", if unicode { "on" } else { "off" }), 0)).1 += 1;
+                    }
+                }
+            }
+        }
+    }
+    println!("STAT evaluations={pairs} matches={matches} hash={matches:016x}");
+    for (sig, (msg, n)) in viols {
+        println!("VIOL {sig}\t{n}\t{msg}");
+    }
 }
 
 fn variant(s: &str, how: u8) -> String {
@@ -591,11 +683,11 @@ fn c19(args: &[String]) {
         alpha.push(NOp::Create(n));
     }
     alpha.push(NOp::CreateDir(1));
-    for n in [0usize, 2, 5, 8, 9, 11, 13, 15] {
+    for n in [0usize, 2, 5, 8, 9, 11, 13, 15, 16, 17] {
         alpha.push(NOp::Open(n, 1));
         alpha.push(NOp::Open(n, 2));
     }
-    for (a, b) in [(0usize, 8usize), (8, 5), (9, 10), (11, 12), (2, 3), (15, 8)] {
+    for (a, b) in [(0usize, 8usize), (8, 5), (9, 10), (11, 12), (2, 3), (15, 8), (0, 16)] {
         alpha.push(NOp::Rename(a, b));
     }
     for n in [0usize, 5, 8, 9, 11, 15] {
@@ -690,6 +782,7 @@ fn main() {
     match args.get(1).map(String::as_str) {
         Some("c17") => c17(&args[2..]),
         Some("c19") => c19(&args[2..]),
+        Some("c19m") => c19m(&args[2..]),
         _ => {
             eprintln!("usage: featdrv c17 <image> <root|sub> <tier> | featdrv c19 <image> <tier> <out>");
             std::process::exit(2);
